@@ -39,18 +39,24 @@ def build():
 
 
 def deadlines(tier):
-    """(kind, sec, nsec, expectation) -- expectation: 'expired' | ('future', ms) | 'none'"""
+    """(kind, sec, nsec, expectation) -- expectation: 'expired' | ('future', ms) | 'none' | 'far'.
+    'far' = a deadline far in the future (years): like 'none' the driver produces the awaited event after 100 ms, and the wait must
+    end by that event -- a timeout result there is an early timeout."""
     ds = [("abs", 0, 0, "expired"), ("abs", 0, 1, "expired"), ("abs", -1, NS - 1, "expired"), ("abs", 1, 0, "expired"),
           ("abs", -1, 0, "expired"), ("abs", -(2 ** 31), 0, "expired"), ("abs", -(2 ** 62), 5, "expired"),
           ("abs", -I64MAX - 1, 0, "expired"), ("abs", -100000, 5, "expired"),
           ("rel", -1, 0, "expired"), ("rel", 0, 0, "expired"), ("rel", -3600, 0, "expired"),
           ("rel", 0, 150000000, ("future", 150)), ("rel", 0, 60000000, ("future", 60)),
-          ("none", 0, 0, "none")]
+          ("none", 0, 0, "none"),
+          # far future: max-1 (one nanosecond below nsync_time_no_deadline, taken from the library's constant by the driver),
+          # the largest seconds value with other nanoseconds, 2^31 and 2^62 seconds from now, 2^62 seconds absolute
+          ("maxm1", 0, 0, "far"), ("absh", I64MAX, 0, "far"), ("absh", I64MAX - 1, NS - 1, "far"),
+          ("relh", 2 ** 31, 0, "far"), ("relh", 2 ** 62, 0, "far"), ("absh", 2 ** 62, NS - 1, "far")]
     if tier == "thorough":
         ds += [("abs", -2, 5, "expired"), ("abs", 1000, NS - 1, "expired"), ("rel", 0, 300000000, ("future", 300)),
-               ("abs", -(2 ** 40), NS - 1, "expired"), ("rel", -1, NS - 1, "expired")]
-    # max-1: a deadline just below no_deadline must not time out early; it is cut short by the helper-less watchdog,
-    # so it is exercised with the event produced by the helper thread (kind handled by the driver as abs + helper)
+               ("abs", -(2 ** 40), NS - 1, "expired"), ("rel", -1, NS - 1, "expired"),
+               ("relh", 2 ** 31 - 1, NS - 1, "far"), ("relh", 2 ** 32, 1, "far"), ("relh", 2 ** 40, 0, "far"), ("relh", 2 ** 53, 0, "far"),
+               ("absh", 2 ** 63 - 2 ** 31, 0, "far"), ("relh", 86400 * 365 * 300, 0, "far"), ("relh", 9223372036, 854775808, "far")]
     return ds
 
 
@@ -66,29 +72,39 @@ def run_case(exe, entry, d):
 
 
 def judge(c):
+    """The verdicts are independent of machine load except for the generous bounds named here: a loaded machine only makes calls
+    return LATER, and nothing below objects to a late return short of the watchdog (15 s) and the 3 s promptness bound."""
     exp = c["expect"]
     if c["rc"] == "hang":
         return "hang: no return within 15 s"
     if c["rc"] != 0:
         return "crash: exit status %s" % c["rc"]
-    m = re.match(r"(\w+) elapsed_ms=([\d.]+) ret=(-?\d+)", c["out"])
+    m = re.match(r"(\w+) elapsed_ms=([\d.]+) ret=(-?\d+) early=(\d) since_dl_ms=([\d.]+)", c["out"])
     if not m:
         return "unparseable output %r" % c["out"]
-    cls, ms = m.group(1), float(m.group(2))
+    cls, ms, early, since_dl = m.group(1), float(m.group(2)), int(m.group(4)), float(m.group(5))
     if exp == "expired":
         if cls != "TIMEOUT":
             return "expired deadline did not produce the timeout result (%s)" % c["out"]
         if ms > 3000:
-            return "expired deadline not reported promptly (%.0f ms)" % ms
+            return "expired deadline not reported promptly (%.0f ms inside the call)" % ms
     elif exp == "none":
         if cls != "EVENT":
             return "no_deadline wait did not return the event (%s)" % c["out"]
+    elif exp == "far":
+        # the deadline is years away: any timeout result is early; the wait must end when the event is produced
+        if cls == "TIMEOUT":
+            return "far-future deadline timed out (after %.0f ms; the deadline is years away): %s" % (ms, c["out"])
+        if cls != "EVENT":
+            return "far-future deadline: the wait did not return the event (%s)" % c["out"]
     else:
         want = exp[1]
         if cls != "TIMEOUT":
-            return "future deadline: expected a timeout after %d ms, got %s" % (want, c["out"])
-        if ms < want - 2:
-            return "future deadline timed out early: %.1f ms < %d ms" % (ms, want)
+            return "future deadline: nothing produces the event, expected the timeout result, got %s" % c["out"]
+        # early = the timeout was reported while CLOCK_REALTIME (read after the return) was still before the deadline itself.
+        # The monotonic time since the instant BEFORE the deadline was computed guards against a step of the real-time clock.
+        if early and since_dl < want:
+            return "future deadline timed out early: timeout reported before the deadline was reached on CLOCK_REALTIME (%.1f ms after a deadline %d ms ahead was computed)" % (since_dl, want)
     return None
 
 
@@ -122,9 +138,10 @@ def run(tier, seed):
             seen.add(key)
             res["violations"].append({"case": c, "why": v, "key": key})
     res["coverage"] = {"evaluations": len(cases), "distinct_nontrivial": len([c for c in cases if c["expect"] != "none"]),
-                       "rule": "boundary set of deadlines (0, +/-1 ns, +/-1 s, large negative, INT64_MIN, now-d, now, now+d, no_deadline) x "
+                       "rule": "boundary set of deadlines (0, +/-1 ns, +/-1 s, large negative, INT64_MIN, now-d, now, now+d, no_deadline; far future: "
+                               "no_deadline - 1 ns, INT64_MAX s, now + 2^31 s, now + 2^62 s, 2^62 s, each with the awaited event produced after 100 ms) x "
                                "{cv_wait_with_deadline, mu_wait_with_deadline, note_wait, counter_wait, wait_n} x {C build, C++ build} of the "
-                               "real library on the real futex, one child process per case with a 5 s watchdog; non-trivial = all but no_deadline",
+                               "real library on the real futex, one child process per case with a 15 s watchdog; early timeouts are judged against the deadline itself on CLOCK_REALTIME; non-trivial = all but no_deadline",
                        "builds": sorted(exes), "samples": cases[:3],
                        "traces_validated_against_impl": sem["coverage"].get("traces_validated_against_impl", 0),
                        "sem_model_events_hit": sem["coverage"].get("model_events_hit", {})}
